@@ -67,10 +67,13 @@ impl EventGen for SvgElement {
 
         let (ol, mut bbox) = res?;
 
-        if let (Some(el_bbox), Some(clip_id)) = (
+        // (a `clip-path` on a `<reuse>` is not copied to its instance: what was emitted is
+        // clipped - or not - by the instance elements' own attribute)
+        if let (Some(el_bbox), Some(clip_id), false) = (
             bbox,
             self.get_attr("clip-path")
                 .and_then(|url| extract_urlref(&url)),
+            self.name == "reuse",
         ) {
             let clip_el = context
                 .get_element(&clip_id)
